@@ -51,6 +51,8 @@ pub enum AddShredError {
     Equivocation,
     #[error("shred was invalid and leader did not equivocate")]
     InvalidShred,
+    #[error("shred's data/coding tag does not match its shred index")]
+    WrongShredType,
 }
 
 /// Holds all data corresponding to any blocks for a single slot.
@@ -208,6 +210,14 @@ impl BlockData {
         debug_assert_eq!(header.slot, self.slot);
         let slice_index = header.slice_index;
         let is_last = header.is_last;
+
+        // the data/coding tag is covered by neither the leader's signature nor the Merkle proof,
+        // so anyone relaying the shred can flip it; this says nothing about the leader,
+        // drop the shred instead of letting it poison the reconstruction
+        let is_data_index = *shred.payload().shred_index < RegularShredder::DATA_OUTPUT_SHREDS;
+        if shred.is_data() != is_data_index {
+            return Err(AddShredError::WrongShredType);
+        }
 
         // first shred for a slice populates the commitment cache;
         // a later shred with a different valid commitment proves leader equivocation
